@@ -100,6 +100,7 @@ func (s *sys) commit(ws []write) string {
 		kv = append(kv, &types.KeyValue{Key: []byte(w.k), Value: []byte(w.v)})
 	}
 	root, err := s.st.Set(&types.StoreSet{StateHash: s.parent(), KV: kv, Height: int64(len(s.roots) + 1)}, true)
+	mvx.Scribble(kv) // the caller reuses its buffers after the call
 	if err != nil || len(root) == 0 {
 		return fmt.Sprintf("set-error| Store.Set failed: %v (root %x)", err, root)
 	}
